@@ -43,7 +43,15 @@ def solve1(eta, dr, L, hc, kT=1.0, pot=None, clo='py', rho=None, method='krylov'
         p = s2.createPRISM()
     res = C01.solve_quiet(p, None, method)
     if isinstance(res, Exception) or not res.success: return None
+    _COPY[0] += 1
+    if _COPY[0] % 3 == 1:
+        import copy
+        return copy.deepcopy(p)          # the solved object as an analysis routine receives it: a (deep) copy, the original left alone
+    if _COPY[0] % 3 == 2:
+        import copy
+        q = copy.copy(p); return q
     return p
+_COPY = [0]
 
 def contact_misplaced(r, sigma):
     """known finding F7 (property C10): a grid point that nominally coincides with sigma but lies above it by rounding is treated as
